@@ -240,6 +240,55 @@ fn wal_commit_ends(wal: &[u8]) -> Vec<usize> {
     out
 }
 
+/// forward and reverse iteration of a whole event-log file by the real iterator: the commits
+/// (first 4 bytes, hex) in the order each direction yields them, or "err"
+async fn both_directions(rel: &str, bytes: &[u8], scratch: &Path, account_id: &AccountId) -> (String, String) {
+    let _ = std::fs::create_dir_all(scratch);
+    let p = scratch.join("d.events");
+    std::fs::write(&p, bytes).unwrap();
+    let stem = Path::new(rel).file_stem().map(|s| s.to_string_lossy().to_string()).unwrap_or_default();
+    type E = sos_backend::Error;
+    macro_rules! walk {
+        ($ctor:expr) => {
+            match $ctor {
+                Ok(log) => {
+                    let mut out = vec![];
+                    for reverse in [false, true] {
+                        let mut v: Vec<String> = vec![];
+                        let mut failed = false;
+                        match log.iter(reverse).await {
+                            Ok(mut it) => loop {
+                                match it.next().await {
+                                    Ok(Some(rec)) => v.push(hex::encode(&rec.commit()[..4])),
+                                    Ok(None) => break,
+                                    Err(_) => {
+                                        failed = true;
+                                        break;
+                                    }
+                                }
+                            },
+                            Err(_) => failed = true,
+                        }
+                        out.push(if failed { "err".to_string() } else { v.join(",") });
+                    }
+                    (out[0].clone(), out[1].clone())
+                }
+                Err(_) => ("err".to_string(), "err".to_string()),
+            }
+        };
+    }
+    let r = match stem.as_str() {
+        "account" => walk!(sos_filesystem::AccountEventLog::<E>::new_account(&p, *account_id).await),
+        "devices" => walk!(sos_filesystem::DeviceEventLog::<E>::new_device(&p, *account_id).await),
+        "files" => walk!(sos_filesystem::FileEventLog::<E>::new_file(&p, *account_id).await),
+        _ => walk!(
+            sos_filesystem::FolderEventLog::<E>::new_folder(&p, *account_id, sos_core::events::EventLogType::Folder(sos_core::VaultId::new_v4())).await
+        ),
+    };
+    let _ = std::fs::remove_file(&p);
+    r
+}
+
 fn rle(xs: &[String]) -> String {
     let mut out: Vec<String> = vec![];
     let mut i = 0;
@@ -400,6 +449,8 @@ pub fn run(text: &str, cases_path: &str, out: &mut impl Write) {
                             )
                             .unwrap();
                             if rel.ends_with(".events") && *new < 20_000 {
+                                let (fwd, rev) = both_directions(rel, nb, &scratch.join("light"), &w.account_id).await;
+                                writeln!(out, "{id} dirs k={k} side={side} file={rel} fwd={fwd} rev={rev}").unwrap();
                                 writeln!(out, "{id} !tornlog k={k} side={side} file={rel} kind={kind} old={from} hex={}", hex::encode(nb)).unwrap();
                             }
                             // sampled full re-opens: first byte, middle, last byte short, record boundaries
